@@ -43,6 +43,7 @@ type Case struct {
 	Regime     int              `json:"regime"`
 	Opts       chaingen.GenOpts `json:"opts"`
 	Foundation bool             `json:"foundation"` // the wallet address is the foundation's primary address
+	Gen        int              `json:"gen"`        // generator version: 0 chaingen.GenW, 2 chaingen.GenW2 (pass-through blocks)
 	Evs        []Ev             `json:"evs"`
 }
 
@@ -56,6 +57,9 @@ func (c Case) tree() (t *chaingen.Tree) {
 	env := chaingen.NewEnv(r, c.Regime)
 	if c.Foundation {
 		env.Net.HardforkFoundation.PrimaryAddress = env.Addr
+	}
+	if c.Gen >= 2 {
+		return chaingen.GenW2(r, env, c.Opts)
 	}
 	return chaingen.GenW(r, env, c.Opts)
 }
@@ -115,7 +119,17 @@ func (w *world) node(ci types.ChainIndex) int {
 
 // poll feeds one chunk of the stream to the wallet.
 func (w *world) poll(max int) {
-	rus, aus, err := w.s.CM.UpdatesSince(w.idx, max)
+	var rus []chain.RevertUpdate
+	var aus []chain.ApplyUpdate
+	var err error
+	func() {
+		defer func() {
+			if r := recover(); r != nil {
+				err = fmt.Errorf("panic: %v", r)
+			}
+		}()
+		rus, aus, err = w.s.CM.UpdatesSince(w.idx, max)
+	}()
 	if err != nil {
 		w.report("c06-update-stream-error", "UpdatesSince(%v, %d) failed: %v", w.idx, max, err)
 		return
@@ -305,6 +319,24 @@ func (w *world) check() {
 		} else if len(kinds) == 1 && kinds[wallet.EventTypeV2ContractResolution] {
 			kind = "c06-v2-resolution-event-mismatch"
 		}
+		// a whole block's events missing: every difference is a missing event of a block for which the
+		// wallet lists nothing at all (e.g. a block that touches the address only through outputs
+		// created and spent inside it)
+		if kind == "c06-events-differ" {
+			haveAt := map[types.ChainIndex]int{}
+			for _, e := range have {
+				haveAt[e.index]++
+			}
+			whole := true
+			for k, c := range count {
+				if c < 0 || (c > 0 && haveAt[byKey[k].index] > 0) {
+					whole = false
+				}
+			}
+			if whole {
+				kind = "c06-block-without-events"
+			}
+		}
 		if len(diffs) > 6 {
 			diffs = append(diffs[:6], fmt.Sprintf("... (%d in all)", len(diffs)))
 		}
@@ -396,7 +428,7 @@ func genCase(r *rng.R, regime int) (Case, *chaingen.Tree) {
 	var cs Case
 	var t *chaingen.Tree
 	for t == nil {
-		cs = Case{Seed: r.U64(), Regime: regime, Foundation: r.Chance(1, 3), Opts: chaingen.GenOpts{Blocks: 6 + r.Intn(14), Branchiness: 2 + r.Intn(4), TxPerBlock: 2 + r.Intn(4), Corruptions: r.Intn(2), Jitter: r.Intn(3)}}
+		cs = Case{Seed: r.U64(), Regime: regime, Gen: 2, Foundation: r.Chance(1, 3), Opts: chaingen.GenOpts{Blocks: 6 + r.Intn(14), Branchiness: 2 + r.Intn(4), TxPerBlock: 2 + r.Intn(4), Corruptions: r.Intn(2), Jitter: r.Intn(3)}}
 		if regime >= 3 && r.Bool() {
 			cs.Opts.Jitter = 4000
 		}
@@ -509,10 +541,17 @@ func run(c *hx.Ctx) {
 			res.CountN(k, v)
 		}
 		for _, n := range t.Nodes {
+			only := len(n.Kinds) > 0
 			for _, k := range n.Kinds {
 				if strings.HasPrefix(k, "w-") || strings.Contains(k, "siafund") {
 					res.Count("tx:" + k)
 				}
+				if k != "w-pass-through" {
+					only = false
+				}
+			}
+			if only && len(n.Block.MinerPayouts) == 1 && n.Block.MinerPayouts[0].Address != t.Env.Addr {
+				res.Count("blocks-touching-the-wallet-only-through-pass-through-outputs")
 			}
 		}
 		if w.fail != nil {
